@@ -167,6 +167,9 @@ func init() {
 			bz.Floor("quick_return_guards_on_k", 10)
 			res.Merge(bz)
 			res.Merge(flagx.RunBetaZero(core.Config{Tags: "noasm"}, core.Pkgs("./internal/asm/f64", "./internal/asm/f32")))
+			az := flagx.RunAlphaZero(def, core.Pkgs("./blas/gonum"))
+			az.Floor("alpha_uses", 200)
+			res.Merge(az)
 			bs := flagx.RunBetaScale(def, core.Pkgs("./blas/gonum"))
 			bs.Floor("beta_scaling_sites", 100)
 			res.Merge(bs)
@@ -793,6 +796,8 @@ func dump(argv []string) {
 		res = matargs.RunSelfGuard(def)
 	case "cholorder":
 		res = flagx.RunCholOrder(def, core.Pkgs(argv[1:]...))
+	case "alphazero":
+		res = flagx.RunAlphaZero(def, core.Pkgs(argv[1:]...))
 	case "betascale":
 		res = flagx.RunBetaScale(def, core.Pkgs(argv[1:]...))
 	case "guardop":
